@@ -267,3 +267,38 @@ for units in RUNITS:
                          ensures=[('same-direction-and-conditions',
                                    'result == self.get_EoRT_act(rev=rev, del_m=del_m, T=T, P=P) * %s' % Rx)],
                          cross_check=False)
+
+# ---- per-mass units of a second species with the same elements in other proportions (any earlier call must not matter) -----
+def species_of(elements):
+    return New(SM, name=Const('A'), trans_model=ft3(), elec_model=gse(), nucl_model=New('pmutt.statmech.nucl:EmptyNucl'),
+               elements=Const(elements))
+
+
+for first, second, label in (({'H': 2, 'O': 1}, {'H': 2, 'O': 2}, 'H2O-then-H2O2'), ({'C': 1, 'H': 4}, {'C': 2, 'H': 6}, 'CH4-then-C2H6')):
+    M2 = ' + '.join("%d * const.atomic_weight[%r]" % (n, e) for e, n in second.items())
+    lemma('per-mass-after-another-species[%s]' % label, P, forall=dict(a=species_of(first), b=species_of(second), T=T, P=PR),
+          given=['T > 0', 'P > 0', 'a.trans_model.molecular_weight > 0', 'b.trans_model.molecular_weight > 0',
+                 'a.elec_model.spin >= 0', 'b.elec_model.spin >= 0'],
+          prove=[('molar-over-per-gram-is-its-own-molar-mass',
+                  "(a.get_H(units='J/g', T=T, P=P), b.get_H(units='J/g', T=T, P=P))[1] * (%s) == b.get_H(units='J/mol', T=T, P=P)" % M2),
+                 ('same-for-entropy',
+                  "(a.get_S(units='J/g/K', T=T, P=P), b.get_S(units='J/g/K', T=T, P=P))[1] * (%s) == b.get_S(units='J/mol/K', T=T, P=P)" % M2)])
+
+# ---- reaction classes that override the activation quantities: dimensional = dimensionless x R x T ---------------------------
+for cls in ('pmutt.reaction:ChemkinReaction', 'pmutt.omkm.reaction:SurfaceReaction'):
+    for ts in (True, False):
+        def crxn(cls=cls, ts=ts):
+            nu = lambda: Real(0.25, 4.)
+            kw = dict(reactants=ListOf([sp('R0'), sp('R1')]), reactants_stoich=ListOf([nu(), nu()]),
+                      products=ListOf([sp('P0')]), products_stoich=ListOf([nu()]))
+            if ts:
+                kw.update(transition_state=ListOf([sp('TS0')]), transition_state_stoich=ListOf([nu()]))
+            return New(cls, **kw)
+        for units in ('J/mol/K', 'kcal/mol/K'):
+            for g, dimless in (('H', 'HoRT'), ('G', 'GoRT')):
+                for rev in (False, True):
+                    contract(cls + '.get_%s_act' % g, P, label='[%s,TS=%s,rev=%s]' % (units[:-2], ts, rev),
+                             args=dict(self=crxn(), units=Const(units[:-2]), T=T, rev=Const(rev), P=PR), requires=['T > 0'],
+                             ensures=[('same-direction-and-conditions',
+                                       'result == self.get_%s_act(rev=rev, T=T, P=P) * const.R(%r) * T' % (dimless, units))],
+                             cross_check=False)
